@@ -1,3 +1,3 @@
 SPECIFICATION Spec
-INVARIANTS TopLevelPathsStayInTheirModule TopLevelReachesLaterModules EmitCase
+INVARIANTS TopLevelPathsStayInTheirModule TopLevelReachesLaterModules TopLevelBreakingReachesModule2 EmitCase
 CHECK_DEADLOCK FALSE
